@@ -11,6 +11,25 @@ use yuvxyb::*;
 
 const STRATA: [&str; 8] = ["uniform-cube", "forced-sextant", "grey-and-near-grey", "channel-pinned-0-or-1", "two-channels-tiny", "black-white-corners", "sextant-boundary+-ulps", "bit-pattern-uniform"];
 
+/// input class of a pixel, used in violation signatures so that a known finding names *which* pixels fail
+pub fn pixel_class(p: [f32; 3]) -> String {
+    let mx = p[0].max(p[1]).max(p[2]);
+    let mn = p[0].min(p[1]).min(p[2]);
+    let l = (mx + mn) / 2.0;
+    let hue = if mx == mn {
+        "grey".to_string()
+    } else if mx == p[0] {
+        format!("max=R,{}", if p[2] > p[1] { "b>g" } else { "g>=b" })
+    } else if mx == p[1] {
+        format!("max=G,{}", if p[0] > p[2] { "r>b" } else { "b>=r" })
+    } else {
+        format!("max=B,{}", if p[1] > p[0] { "g>r" } else { "r>=g" })
+    };
+    let lc = if l < 0.01 { "L<0.01" } else if l > 0.99 { "L>0.99" } else { "mid-L" };
+    let sat = if mx == 1.0 { ",has-1.0" } else { "" };
+    format!("{hue},{lc}{sat}")
+}
+
 fn nudge(v: f32, k: i64) -> f32 {
     let b = v.to_bits() as i64 + k;
     if b < 0 {
@@ -198,7 +217,7 @@ pub fn c17(ctx: &Ctx) {
                 ev::sample(j.clone());
             }
             if !(w.err <= tol) {
-                ev::violation(format!("C17|{name}"), format!("pixel {p:?}: {name} error {:.3e}{unit} > {tol:e}; HSL {:?}, model {:?}", w.err, hslof(p), lrgb_to_hsl(px64(p))), j);
+                ev::violation(format!("C17|{name}|{}", pixel_class(p)), format!("pixel {p:?}: {name} error {:.3e}{unit} > {tol:e}; HSL {:?}, model {:?}", w.err, hslof(p), lrgb_to_hsl(px64(p))), j);
             }
         }
     }
@@ -211,7 +230,7 @@ pub fn c17(ctx: &Ctx) {
     if let Some((p, h)) = g.first_range_bad {
         let which: Vec<&str> = (0..4).filter(|i| g.range_bad[*i] > 0).map(|i| names[i]).collect();
         ev::violation(
-            format!("C17|range|{}", which.join("+")),
+            format!("C17|range|{}|{}", which.join("+"), pixel_class(p)),
             format!("{} pixels leave the documented HSL ranges; first: {p:?} -> {h:?}", g.range_bad.iter().sum::<u64>()),
             J::obj().set("kind", "hsl").set("check", "range").set("pixel", px_json(p)).set("hsl", h),
         );
